@@ -19,6 +19,7 @@ TRun ==
                 \cup (IF ~o.panicked /\ ToSet(o.written) # x.written THEN {Item("written-files", "the files written are not those the effective configuration names", e, x)} ELSE {})
                 \cup (IF ~o.panicked /\ o.otherChanges # <<>> THEN {Item("other-changes", "a file of the project was modified or deleted", e, x)} ELSE {})
                 \cup (IF ~o.panicked /\ x.named # {} /\ ~(x.named \subseteq ToSet(o.named)) THEN {Item("not-located", "the faulty file under the effective root is not named", e, x)} ELSE {})
+                \cup (IF ~o.panicked /\ o.oneJson /\ ToSet(o.keys) # JsonKeys(Scen(e)) THEN {Item("json-keys", "the json output does not have exactly the documented top-level members for this outcome", e, x)} ELSE {})
                 \cup (IF ~o.panicked /\ ~o.oneJson THEN {Item("json", "stdout is not one JSON document", e, x)} ELSE {})
      IN /\ \A it \in its : PrintT(<<"ITEM", ToJson(it)>>)
         /\ PrintT(<<"STAT", ToJson([l |-> l, why |-> x.why, ok |-> (its = {})])>>)
